@@ -220,7 +220,10 @@ def check(tier, seed, scratch, inc, ncpu, pool_map):
     cases = [gen_case(rng, tier) for _ in range(n)]
     if tier == "quick":
         # always one product just above the 512 split
-        cases[0] = dict(cases[0], lens=[23, 23], p_not_defined=0.1)
+        # more than 512 *defined* combinations (the split of `aggregate`),
+        # an odd and a pseudo-random count
+        cases[0] = dict(cases[0], lens=[23, 23], p_not_defined=0.0)
+        cases[3] = dict(cases[3], lens=[24, 24], p_not_defined=0.1)
         cases[1] = dict(cases[1], lens=[8, 8, 8], p_not_defined=0.5,
                         style="default_not_defined")
         cases[2] = dict(cases[2], lens=[5, 7], p_not_defined=0.5)
